@@ -1236,7 +1236,8 @@ def _ALL():
     return CONTRACTS
 
 
-TRUSTED_BASE = ['pyvc engine: proxies, path forking, loop cutting, instrumenter rewrites D1-D2, T1-T6',
+TRUSTED_BASE = ["Lean lemma L4a (lemmas/L4.lean, re-checked in the thorough tier): an invariant preserved by every operation holds after ANY finite sequence of operations; the reading that its hypothesis is the conjunction of this module's per-operation obligations is not mechanised; L4c: systems driven by the same operations from related states stay related (a copy with an equal view behaves like the original)",
+                'pyvc engine: proxies, path forking, loop cutting, instrumenter rewrites D1-D2, T1-T6',
                 'pyvc.nxspec: model of networkx.DiGraph (add_node/add_edge/add_edges_from/remove_node/predecessors/edges/in_edges/degree/nodes/graph, '
                 'DiGraph(G) = shallow copy), of python dict (heap of dict objects with identity), set and list (sorted = ordered permutation); '
                 'the facts about the installed networkx 3.6.1 are sanity-tested every run',
@@ -1251,7 +1252,7 @@ ASSUMPTIONS = ['A-LOG: logging calls have no effect',
                'termination of the recursive remove_node is not proved (partial correctness; every call removes a node of a finite graph)']
 NOT_PROVED = ['A copy, and a model saved and loaded again, generates the same seeded outputs as the original  [proved: the copy has an equal view '
               '(nodes, edges, params, state contents, observed contents); generate() equality and the pickle round trip are bounded only]',
-              'After any SEQUENCE of edits ... [proved per operation as preservation of model_ok; sequences are exercised by the bounded stand-in only]',
+              'After any SEQUENCE of edits ... [proved per operation as preservation of model_ok; the step to arbitrary sequences is Lean lemma L4a (lemmas/L4.lean) applied to those per-operation obligations - that application is a reading, not mechanised; sequences are also exercised by the bounded stand-in]',
               'add_edge after a removal can reuse a positional index that is still taken (param = number of positional parents): outside the statement '
               '(adding nodes builds fresh children, for which the clause param = 0, 1, ... is proved)']
 
@@ -1304,3 +1305,5 @@ def replay_refuted(cname, rf):
 def replay_input(inp):
     from bounded import c14 as b
     return b.replay_input(inp)
+
+USES_LEAN_LEMMAS = ['L4a invariant after any operation sequence', 'L4c simulation after any operation sequence']      # re-checked with lean (selftest/lean_check.sh) in the thorough tier
